@@ -58,8 +58,9 @@ call draws from (if the call has a preprocessor), `A`/`I` what the shot's auth s
 def stepVars (c : Cfg) (cd : CallDef) (iters : List (String × Nat)) (sv : ShotVars) : Vars Char × List (String × Nat) :=
   let owner := iterOwner c cd
   let drawn := (assocGet iters owner).getD 0
-  let ui := if cd.pre then (c.users.getD (drawn % c.users.length) "", assocSet iters owner (drawn + 1)) else ("", iters)
-  ([(vU, ui.1.toList), (vA, (sv.a.getD "").toList), (vI, (sv.i.getD "").toList), (vG, c.g.toList)], ui.2)
+  let ui : Option String × List (String × Nat) :=
+    if cd.pre then (some (c.users.getD (drawn % c.users.length) ""), assocSet iters owner (drawn + 1)) else (none, iters)
+  (mkVars ui.1 (svFor cd sv) c.g, ui.2)
 
 /-- the per-shot variables after a step: the step named `auth` (re)defines token and user id -/
 def svNext (cd : CallDef) (ret : Option (String × String)) (sv : ShotVars) : ShotVars :=
@@ -70,7 +71,7 @@ ends the shot. Returns the outcome and the iterator positions afterwards; `none`
 def specSteps (c : Cfg) (scn : String) : List CallDef → List (String × Nat) → ShotVars → Outcome → Option (Outcome × List (String × Nat))
   | [], iters, _, acc => some (acc, iters)
   | cd :: rest, iters, sv, acc =>
-    if (cd.pre && c.users.isEmpty) || needsMissing cd sv then none else
+    if cd.pre && c.users.isEmpty then none else
     let vi := stepVars c cd iters sv
     let r := specStep c scn cd vi.1
     let acc' : Outcome := { calls := acc.calls ++ r.1.calls, samples := acc.samples ++ r.1.samples }
@@ -131,6 +132,13 @@ def kvGet (s : String) (k : String) : String :=
     let (a, b) := cutAt tok '='
     if a == k then some b else none).head?).getD ""
 
+/-- a separate reflection endpoint (the gun's `reflect_port`) serves descriptors only: every call of the run must have
+gone to the TARGET. `stray=<n>` is the number of service calls the reflection endpoint received. -/
+def judgeStray (impl : String) : Option String :=
+  let st := kvGet impl "stray"
+  if st == "" || st == "0" then none
+  else some s!"fail:misdirected:{st} call(s) were sent to the reflection endpoint instead of the target"
+
 /-- verdict for a multiset observation `run=.. calls=.. samples=..` -/
 def judgeMultiset (expCalls expSamples : List String) (impl : String) : String :=
   match crashKey impl with
@@ -184,10 +192,10 @@ def allowedCalls (c : Cfg) : List String :=
     | none => []
     | some cds =>
       cds.flatMap fun cd =>
-        let us := if cd.pre then c.users else [""]
+        let us : List (Option String) := if cd.pre then c.users.map some else [none]
         let is := if (cd.md.map (·.2) ++ cd.payload.map (·.2.2)).any (fun t => usesVar t vA || usesVar t vI) then c.users else [""]
         us.flatMap fun u => is.flatMap fun i =>
-          let vars : Vars Char := [(vU, u.toList), (vA, ("TOK" ++ i).toList), (vI, i.toList), (vG, c.g.toList)]
+          let vars : Vars Char := mkVars u { a := some ("TOK" ++ i), i := some i } c.g
           (specStep c s.name cd vars).1.calls
 
 /-- Engine runs: an instance first acquires an ammo and then waits for a schedule token (`instance.Run`), so with `n`
